@@ -158,7 +158,7 @@ def plan(tier, seed):
     pairs = (G.pair_histories(tier) + G.nest_histories(tier) + G.cross_histories(tier) + G.toc_histories(tier)
              + G.spec_pair_histories(tier, seed, spec) + G.atom_pair_histories(tier) + G.mutate_histories(tier))
     if tier == 'thorough':
-        n_rand, n_ff = int(os.environ.get('VERIF_C11_RUNS', 400000)), int(os.environ.get('VERIF_C11_FF_RUNS', 60000))
+        n_rand, n_ff = int(os.environ.get('VERIF_C11_RUNS', 250000)), int(os.environ.get('VERIF_C11_FF_RUNS', 40000))
     else:
         n_rand, n_ff = int(os.environ.get('VERIF_C11_RUNS', 6000)), int(os.environ.get('VERIF_C11_FF_RUNS', 1500))
     return {'rots': rots, 'variants': variants, 'n_sys': n_sys, 'pairs': pairs, 'n_pairs': len(pairs), 'n_rand': n_rand, 'n_ff': n_ff,
